@@ -95,6 +95,7 @@ pub fn run(params: &[i64], ops: &Rows, mon: &mut Mon) -> Rows {
         3 => go::<E3>(ops, mon),
         4 => go::<P64>(ops, mon),
         5 => go::<P24>(ops, mon),
+        6 => go::<A64>(ops, mon),
         _ => vec![vec![-2]],
     }
 }
